@@ -285,6 +285,18 @@ def go_ends_inner_statement(text):
     return False
 
 
+def later_statement_starts_with_comment(text):
+    """a statement other than the first begins with a comment: once the previous statement's trailing line break is gone the comment sits on the
+    line of the ';' and the splitter gives it to the previous statement"""
+    try:
+        stmts = oracles.flat_statements(text)
+    except Exception:
+        return False
+    def first_sig(st):
+        return next((tt for tt, _ in st if tt not in T.Whitespace), None)
+    return any(first_sig(st) is not None and first_sig(st) in T.Comment for st in stmts[1:])
+
+
 def hash_operator_before_token(text):
     toks = oracles.lex(text)
     return any(tt is T.Operator and v == '#' and toks[i + 1][0] not in T.Whitespace for i, (tt, v) in enumerate(toks[:-1]))
@@ -304,7 +316,18 @@ def classify(f, kf):
         return 'KF-C06-2'
     if 'KF-C06-3' in ids and quote_inside_other_token(text) and only_serializer_normalisation(text, out, True):
         return 'KF-C06-3'
-    if 'KF-C06-1' in ids and opts.get('strip_whitespace') and not opts.get('reindent') and go_ends_inner_statement(text):
+    try:
+        from sqlparse import formatter
+        eff = formatter.validate_options(dict(opts))
+    except Exception:
+        eff = dict(opts)
+    # StripWhitespaceFilter is in the stack (strip_whitespace, or implied by reindent_aligned) and ReindentFilter — which puts a line break in front of
+    # every later statement — is not
+    # (AlignedIndentFilter pops a statement's leading whitespace again, so reindent + reindent_aligned glues as well)
+    glue = eff.get('strip_whitespace') and (not eff.get('reindent') or eff.get('reindent_aligned'))
+    if 'KF-C06-1' in ids and glue and 'changed the sequence' in f['what'] and go_ends_inner_statement(text):
+        return 'KF-C06-1'
+    if 'KF-C06-1' in ids and glue and 'different number of statements' in f['what'] and later_statement_starts_with_comment(text):
         return 'KF-C06-1'
     if 'KF-C06-4' in ids and opts.get('use_space_around_operators') and hash_operator_before_token(text):
         return 'KF-C06-4'
